@@ -18,36 +18,118 @@ FEAT = "opendsm.eemeter.common.features"
 ABBR = ["jan", "feb", "mar", "apr", "may", "jun", "jul", "aug", "sep", "oct", "nov", "dec"]
 
 
-def _weight_matrix(chk, fi: FuncInfo):
-    """Evaluate the weight-table function for every month: returns (names in dict order, columns list, W[name][month])."""
-    calls = [c for c in calls_in(fi.node) if unparse(c.func) == "pd.DataFrame"]
-    if len(calls) != 1 or not calls[0].args or not isinstance(calls[0].args[0], ast.DictComp):
-        raise AnalysisError(f"{fi.key}: weight table is no longer `pd.DataFrame({{name: expr for name, spec in [...]}}, columns=[...])`")
-    call = calls[0]
-    comp: ast.DictComp = call.args[0]
-    gen = comp.generators[0]
-    ce = ConstEval(chk.res, fi.module)
-    rows = ce.ev(gen.iter)
-    cols = ce.ev(kwarg(call, "columns")) if kwarg(call, "columns") is not None else None
-    idx_kw = kwarg(call, "index")
-    if idx_kw is None or unparse(idx_kw) != "index":
-        raise AnalysisError(f"{fi.key}: weights are not indexed by the input index")
-    names = []
-    W: Dict[str, Dict[int, float]] = {}
-    for row in rows:
-        env = {}
-        tgt = gen.target
-        if isinstance(tgt, ast.Tuple):
-            for t, v in zip(tgt.elts, row):
-                env[t.id] = v
-        else:
-            env[tgt.id] = row
-        name = ConstEval(chk.res, fi.module, dict(env)).ev(comp.key)
-        names.append(name)
-        W[name] = {}
+def _check_segmented_predict(chk, r2, sm, sinit, spred, mapping, names1, W1):
+    """SegmentedModel.__init__ + predict interpreted under the one-row abstraction for an hour of every month: each fitted window model
+    answers with its own number, so the hour's prediction says which window answered and with which weight."""
+    from engine.absint import AbsObj, BoundRepoMethods
+    from engine.pyinterp import Stub, StubCall
+    from engine.rowabs import Idx, RowFrame, RowTable
+    windows = sorted(set(mapping.values()))
+    value_of = {w: 100.0 * (i + 1) for i, w in enumerate(windows)}
+
+    class _Me(AbsObj, BoundRepoMethods):
+        pass
+
+    class _Fitted(Stub):
+        def __init__(self, name):
+            self.segment_name = name
+
+        def predict(self, data, *a, **k):
+            return Ser(value_of[self.segment_name])
+
+    class _SegData(Stub):
+        def __init__(self, w):
+            self.weight = Ser(w)
+
+        def __getitem__(self, k):
+            if k == "weight":
+                return Ser(self.weight.v)
+            raise Unsupported("segmented data[...] other than the weight column")
+
+    for missing in (None, "own"):
         for m in range(1, 13):
-            W[name][m] = _eval_weight(comp.value, m, env, chk, fi)
-    return names, cols, W
+            mon = ABBR[m - 1]
+            fitted = [w for w in windows if not (missing == "own" and w == mapping[mon])]
+            seen = {}
+
+            def seg_ts(index, segment_type="single", drop_zero_weight_segments=False):
+                seen["segment_time_series"] = (index, segment_type, drop_zero_weight_segments)
+                return RowTable({c: Ser(W1[c][m]) for c in names1})
+
+            def iterate(data, segmentation=None, feature_processor=None, feature_processor_kwargs=None, feature_processor_segment_name_mapping=None):
+                seen["iterate"] = (segmentation, feature_processor, feature_processor_kwargs, feature_processor_segment_name_mapping)
+                if not isinstance(segmentation, dict):
+                    raise Unsupported("iterate_segmented_dataset without the segmentation built by segment_time_series")
+                return iter([(c, _SegData(v.v)) for c, v in segmentation.items()])
+            it = Interp(step_limit=50_000)
+            stand = {"np": NPRow(), "numpy": NPRow(), "pd": PDRow(), "pandas": PDRow(), "segment_time_series": StubCall(seg_ts), "iterate_segmented_dataset": StubCall(iterate),
+                     "HourlyModelPrediction": StubCall(lambda **k: k.get("result"))}
+            me = _Me({sm.name})
+            me._bind_repo(chk, sm, it, stand)
+            key = f"{spred.key}|route:{mon}" + ("" if missing is None else "|own-window-not-fitted")
+            temperature = Ser(55.0)
+            try:
+                Function(sinit.node, ModuleEnv(chk.repo, sinit.module, it, stand), it)(me, [_Fitted(w) for w in fitted], "one_month", dict(mapping), "PROCESSOR", {"k": 1})
+                res = Function(spred.node, ModuleEnv(chk.repo, spred.module, it, stand), it)(me, temperature.index, temperature)
+            except InterpRaised as e:
+                r2.require(False, key, spred.where(), f"SegmentedModel raises {e.exc_name} when predicting an hour of {mon}")
+                continue
+            except Unsupported as e:
+                raise AnalysisError(f"{spred.key}: uses an operation outside the one-row abstraction: {e}")
+            got = res.get("predicted_usage") if isinstance(res, dict) else None
+            gv = got.v if isinstance(got, Ser) else None
+            want = value_of[mapping[mon]] if missing is None else math.nan
+            ok = gv is not None and gv is not ABSENT and ((math.isnan(want) and isinstance(gv, float) and math.isnan(gv)) or (not math.isnan(want) and abs(gv - want) < 1e-9))
+            who = [w for w, v in value_of.items() if gv is not None and gv is not ABSENT and not (isinstance(gv, float) and math.isnan(gv)) and abs(gv - v) < 1e-9]
+            r2.require(ok, key, spred.where(),
+                       f"an hour of `{mon}` must be predicted by the model fitted on `{mapping[mon]}` with weight 1" + (" and stay NaN when that model does not exist (not 0, not another window's answer)" if missing else "")
+                       + f"; interpreted prediction {gv}" + (f" (= the answer of {who})" if who else ""), sample={"month": mon, "prediction": None if gv is None or gv is ABSENT or (isinstance(gv, float) and math.isnan(gv)) else gv})
+            if missing is None and m == 1:
+                sts = seen.get("segment_time_series")
+                r2.require(sts is not None and isinstance(sts[0], Idx) and sts[1] == "one_month", f"{spred.key}|segmentation-type", spred.where(),
+                           f"SegmentedModel.predict must segment the temperature index with its prediction_segment_type; called with {sts[1:] if sts else None}")
+                itr = seen.get("iterate")
+                r2.require(itr is not None and itr[1] == "PROCESSOR" and itr[2] == {"k": 1} and itr[3] == dict(mapping), f"{spred.key}|processor-plumbing", spred.where(),
+                           "SegmentedModel.predict must hand its own feature processor, its keyword arguments and the segment-name mapping to iterate_segmented_dataset")
+
+
+def _weight_matrix(chk, fi: FuncInfo):
+    """The weight-table function interpreted under the one-row abstraction for an hour of every calendar month: returns
+    (column names in frame order, the same list, W[name][month])."""
+    from engine.pyinterp import Stub
+    from engine.rowabs import RowTable
+
+    class _MonthIndex(Stub):
+        def __init__(self, m):
+            self.month = Ser(m)
+
+    names = None
+    W: Dict[str, Dict[int, float]] = {}
+    for m in range(1, 13):
+        it = Interp(step_limit=20_000)
+        idx = _MonthIndex(m)
+        try:
+            t = Function(fi.node, ModuleEnv(chk.repo, fi.module, it, {"np": NPRow(), "numpy": NPRow(), "pd": PDRow(), "pandas": PDRow()}), it)(idx)
+        except InterpRaised as e:
+            raise AnalysisError(f"{fi.key}: raises {e.exc_name} for an hour of month {m}")
+        except Unsupported as e:
+            raise AnalysisError(f"{fi.key}: weight table uses an operation outside the one-row abstraction: {e}")
+        if not isinstance(t, RowTable):
+            raise AnalysisError(f"{fi.key}: does not return a frame built from named weight columns")
+        if t.index_given is not idx:
+            raise AnalysisError(f"{fi.key}: weights are not indexed by the input index")
+        cols = list(t.keys())
+        if names is None:
+            names = cols
+        elif cols != names:
+            raise AnalysisError(f"{fi.key}: the weight columns depend on the month of the hour ({cols} vs {names})")
+        for c in cols:
+            v = t[c]
+            w = v.v if isinstance(v, Ser) else (1.0 if getattr(v, "b", None) is True else (0.0 if getattr(v, "b", None) is False else v))
+            if not isinstance(w, (int, float)) or w is ABSENT:
+                raise AnalysisError(f"{fi.key}: weight `{c}` of month {m} is not a number")
+            W.setdefault(c, {})[m] = float(w)
+    return names, list(names), W
 
 
 def _eval_weight(e: ast.AST, m: int, env: Dict[str, Any], chk, fi) -> float:
@@ -187,21 +269,8 @@ def run(chk):
     sinit, spred = sm.methods.get("__init__"), sm.methods.get("predict")
     if sinit is None or spred is None:
         raise AnalysisError("SegmentedModel.__init__/predict vanished")
-    # model_lookup[pred] = fitted[fit]
-    ok_dir = False
-    for n in walk_no_nested(sinit.node):
-        if isinstance(n, ast.DictComp) and isinstance(n.generators[0].target, ast.Tuple) and "prediction_segment_name_mapping.items()" in unparse(n.generators[0].iter):
-            a, b = (x.id for x in n.generators[0].target.elts)
-            ok_dir = unparse(n.key) == a and isinstance(n.value, ast.Call) and unparse(n.value.args[0]) == b and "fitted_model_lookup" in unparse(n.value.func)
-    r2.require(ok_dir, f"{sinit.key}|lookup-direction", sinit.where(), "SegmentedModel: model_lookup must map prediction segment name -> model fitted under the mapped fit name")
-    txt = unparse(spred.node)
-    r2.require("self.prediction_segment_type" in txt and "segment_time_series(" in txt, f"{spred.key}|segmentation-type", spred.where(), "SegmentedModel.predict must segment with its prediction_segment_type")
-    keep = any(isinstance(n, ast.Subscript) and isinstance(n.slice, ast.Compare) and unparse(n.slice) in ("segmented_data.weight > 0", "segmented_data['weight'] > 0")
-               for n in walk_no_nested(spred.node))
-    r2.require(keep, f"{spred.key}|positive-weight-rows", spred.where(), "SegmentedModel.predict must keep only rows with weight > 0 of each segment")
-    sums = [c for c in calls_in(spred.node) if isinstance(c.func, ast.Attribute) and c.func.attr == "sum" and kwarg(c, "axis") is not None]
-    ok_sum = any(unparse(kwarg(c, "axis")) == "1" and kwarg(c, "min_count") is not None and unparse(kwarg(c, "min_count")) == "1" for c in sums)
-    r2.require(ok_sum, f"{spred.key}|sum-min_count", spred.where(), "segment predictions must be combined with sum(axis=1, min_count=1) (an hour no model covers stays NaN, not 0)")
+    if mapping is not None and n1 is not None:
+        _check_segmented_predict(chk, r2, sm, sinit, spred, mapping, n1, W1)
 
     # ------------------------------------------------------------------ R18.3
     ctf = chk.repo.func(FEAT, "compute_time_features")
